@@ -1296,8 +1296,23 @@ func c14R9(p *core.Program, r *core.Report) {
 					if k, isC := core.ConstInt(info, rhs); isC && k == 1 {
 						break
 					}
-					if lc, ok := rhs.(*ast.CallExpr); ok && core.CalleeName(info, lc) == "builtin.len" && len(lc.Args) == 1 {
-						if fld := core.FieldOf(info, lc.Args[0]); fld != nil && fld.Name() == "Names" {
+					lenNames := func(e ast.Expr) bool {
+						lc, ok := ast.Unparen(e).(*ast.CallExpr)
+						if !ok || core.CalleeName(info, lc) != "builtin.len" || len(lc.Args) != 1 {
+							return false
+						}
+						fld := core.FieldOf(info, lc.Args[0])
+						return fld != nil && fld.Name() == "Names"
+					}
+					if lenNames(rhs) {
+						perName = true
+						break
+					}
+					// max(len(field.Names), 1): an unnamed result field is one result
+					if mc, ok := rhs.(*ast.CallExpr); ok && core.CalleeName(info, mc) == "builtin.max" && len(mc.Args) == 2 {
+						k0, c0 := core.ConstInt(info, mc.Args[0])
+						k1, c1 := core.ConstInt(info, mc.Args[1])
+						if (lenNames(mc.Args[0]) && c1 && k1 == 1) || (lenNames(mc.Args[1]) && c0 && k0 == 1) {
 							perName = true
 							break
 						}
